@@ -132,7 +132,9 @@ structure CallerObs where
   deriving Repr
 
 /-- verdict on one caller; `closedAt` = label indices at which some `disconnect()` call had completed,
-`waitMs` = the longest a caller may wait (put time-out + reply time-out) -/
+`waitMs` = the longest a caller may wait (put time-out + reply time-out), `putClosing` = the connection was already
+being shut down (or was shut down) when the caller queued its request: such a caller must be released like one that
+was waiting when the shutdown began, it must not sit out its time-out -/
 inductive Verdict where
   | ok
   | wrongReply        -- returned a line that was not handed to its entry / does not answer its request
@@ -143,7 +145,7 @@ inductive Verdict where
   deriving DecidableEq, Repr
 
 def judgeCaller (tbl : List (α × α)) (final : St α) (closedAt : List Nat) (everClosing : Bool) (waitMs : Nat)
-    (c : CallerObs) : Verdict :=
+    (putClosing : Bool) (c : CallerObs) : Verdict :=
   if c.tEnd > c.tPut + waitMs then .late else
   match c.out with
   | .reply q | .secopError q =>
@@ -151,7 +153,7 @@ def judgeCaller (tbl : List (α × α)) (final : St α) (closedAt : List Nat) (e
     | some p => if p.2.seq = q ∧ AnswersOwn tbl p.1 p.2 then .ok else .wrongReply
     | none => .wrongReply
   | .connError => if everClosing then .ok else .spuriousConnError
-  | .timeout => if closedAt.any (fun k => c.putAt < k ∧ k ≤ c.endAt) then .notReleased else .ok
+  | .timeout => if putClosing || closedAt.any (fun k => c.putAt < k ∧ k ≤ c.endAt) then .notReleased else .ok
   | .other => .raised
   | .laterConn => .ok
 
